@@ -174,7 +174,7 @@ class Tensor:
             data = np.array(data)
         if not isinstance(data, np.ndarray):
             try:
-                data = np.array(data, dtype=default_type__)
+                data = np.array(data, dtype=default_type__ if dtype is None else dtype)
             except: 
                 raise RuntimeError("data must be convertible into a numpy array")
         if dtype is not None and data.dtype != dtype: data = data.astype(dtype)
@@ -416,14 +416,18 @@ class Tensor:
     # ******* Basic ops *******
     # *************************
     
+    def __scalar_dtype(self, other):
+        # a Python number combined with a floating point tensor takes that tensor's dtype
+        return self.dtype if isinstance(other, (int, float)) and self.is_floating_point else None
+
     def __add__(self, summand:'Tensor') -> 'Tensor':
-        summand = summand if isinstance(summand, Tensor) else Tensor(summand, device=self.device)
+        summand = summand if isinstance(summand, Tensor) else Tensor(summand, dtype=self.__scalar_dtype(summand), device=self.device)
         from . import functional as F
         return  F.add(self, summand)
         
         
     def __mul__(self, factor:'Tensor') -> 'Tensor':
-        factor = factor if isinstance(factor, Tensor) else Tensor(factor, device=self.device)
+        factor = factor if isinstance(factor, Tensor) else Tensor(factor, dtype=self.__scalar_dtype(factor), device=self.device)
         from . import functional as F
         return F.mul(self, factor)
     
